@@ -36,7 +36,8 @@ def cases(draw, max_n=40):
             "t_ref": draw(st.sampled_from(["default", "default", "false", "time"])),
             "t_ref_val": gens.rounded(t0 + draw(gens.fl(-10, 10)), 9),
             # overall size of the uncertainties (sub-m/s precision given in km/s up to huge values)
-            "err_scale": draw(st.sampled_from([1.0, 1.0, 1e-6, 1e-4, 1e3])),
+            # (1e-170: finite, positive uncertainties whose squares underflow - the inverse variance is then inf)
+            "err_scale": draw(st.sampled_from([1.0, 1.0, 1e-6, 1e-4, 1e3, 1e-170])),
             "bad": {}}
     nbad = draw(st.integers(0, min(4, n)))
     for _ in range(nbad):
@@ -45,6 +46,8 @@ def cases(draw, max_n=40):
         if where == "t" and (case["time_input"] != "float" or not case["clean"]):
             where = "rv"
         case["bad"]["%s:%d" % (where, i)] = draw(st.sampled_from(["nan", "inf", "-inf"]))
+    if case["cov"] and case["err_scale"] < 1e-100:
+        case["err_scale"] = 1.0       # (a covariance of squared 1e-170 values is the zero matrix: not invertible, not valid input)
     if case["cov"]:
         # NaN inside a covariance: symmetric partner index
         case["cov_partner"] = draw(st.integers(0, n - 1))
@@ -211,7 +214,8 @@ def body_factory(ctx):
                                     max_dev=float(np.max(np.abs(prod - np.eye(len(cov_))))) if np.shape(iv.value) == cov_.shape else None,
                                     err_scale=case.get("err_scale"))
             else:
-                want = 1.0 / np.asarray(data.rv_err.value) ** 2
+                with np.errstate(divide="ignore", over="ignore"):
+                    want = 1.0 / np.asarray(data.rv_err.value) ** 2
                 if not np.allclose(np.asarray(iv.to_value(1 / ref["eu"] ** 2)), want, rtol=1e-12, atol=0):
                     raise Violation("ivar is not 1/sigma^2", got=np.asarray(iv.value)[:5], want=want[:5])
         # reference epoch
